@@ -33,7 +33,7 @@ LNode0 == O(<< M("sensor_id", JInt(0)), M("children", O(<< >>)), M("type", JNull
 Legacy == O(<< MI("0", LNode0, 0), MI("1", LNode1, 1) >>)
 
 Classes == { JNull, JBool(TRUE), JBool(FALSE), JInt(0), JInt(-1), JInt(5), JInt(100), JInt(101), JInt(255), JInt(256),
-             JInt(300), JNum, JStr(""), JStr("x"), JStr("5"),
+             JInt(300), JNum, JStr(""), JStr("x"), JStr("5"), JStr("sensor_id"), JStr("id type"), JStr("node_id"),
              JArr(<< >>), JArr(<< JInt(1) >>), O(<< >>), O(<< M("a", JInt(1)) >>), O(<< MI("7", JStr("v"), 7) >>) }
 
 (* all single-point mutants of a JSON value *)
